@@ -96,28 +96,117 @@ func (f *parserFlow) resolveCalls() {
 	}
 }
 
-// funcChoice: v is a function, a closure, or a phi / single-store local of such.
+// funcChoice: v is a function, a closure, a phi / single-store local of such, or the result of looking a key up in a
+// map all of whose values are such (a local map built in the same function, or a read-only package-level table).
+// Method expressions and bound method values are unwrapped to the method they stand for.
 func funcChoice(v ssa.Value, depth int) ([]*ssa.Function, bool) {
 	if depth > 4 {
 		return nil, false
 	}
 	switch x := unspill(stripChange(v)).(type) {
 	case *ssa.Function:
-		return []*ssa.Function{x}, true
+		return []*ssa.Function{unwrapThunk(x)}, true
 	case *ssa.MakeClosure:
-		return []*ssa.Function{x.Fn.(*ssa.Function)}, true
+		return []*ssa.Function{unwrapThunk(x.Fn.(*ssa.Function))}, true
 	case *ssa.Phi:
 		var out []*ssa.Function
 		for _, e := range x.Edges {
+			if isNilConst(e) {
+				continue
+			}
 			fs, ok := funcChoice(e, depth+1)
 			if !ok {
 				return nil, false
 			}
 			out = append(out, fs...)
 		}
-		return out, true
+		return out, len(out) > 0
+	case *ssa.Extract:
+		if lk, ok := x.Tuple.(*ssa.Lookup); ok && x.Index == 0 {
+			return mapValueFuncs(lk.X, depth)
+		}
+	case *ssa.Lookup:
+		return mapValueFuncs(x.X, depth)
 	}
 	return nil, false
+}
+
+// mapValueFuncs: every value stored in the map m is a known function.
+func mapValueFuncs(m ssa.Value, depth int) ([]*ssa.Function, bool) {
+	m = unspill(stripChange(m))
+	var out []*ssa.Function
+	switch x := m.(type) {
+	case *ssa.MakeMap:
+		if x.Referrers() == nil {
+			return nil, false
+		}
+		for _, ref := range *x.Referrers() {
+			switch r := ref.(type) {
+			case *ssa.MapUpdate:
+				if r.Map != ssa.Value(x) {
+					continue
+				}
+				fs, ok := funcChoice(r.Value, depth+1)
+				if !ok {
+					return nil, false
+				}
+				out = append(out, fs...)
+			case *ssa.Lookup, *ssa.DebugRef, *ssa.Range:
+			case *ssa.Store:
+				// spilled into a local variable: fine when it is the stored value
+				if r.Val != ssa.Value(x) {
+					return nil, false
+				}
+			case *ssa.MakeClosure:
+				// captured by a closure that might update it: give up
+				return nil, false
+			default:
+				if _, isCall := ref.(ssa.CallInstruction); isCall {
+					return nil, false // handed to a function that might update it
+				}
+			}
+		}
+		return out, len(out) > 0
+	case *ssa.UnOp:
+		if g, ok := x.X.(*ssa.Global); ok && x.Op == token.MUL && curProgram != nil {
+			if t := constTable(curProgram, g); t != nil {
+				for _, e := range t.entries {
+					if e.val == nil {
+						return nil, false
+					}
+					fs, ok := funcChoice(e.val, depth+1)
+					if !ok {
+						return nil, false
+					}
+					out = append(out, fs...)
+				}
+				return out, len(out) > 0
+			}
+		}
+	}
+	return nil, false
+}
+
+// unwrapThunk: a method expression ((*T).m) or a bound method value (x.m) is a synthetic wrapper around the method.
+func unwrapThunk(f *ssa.Function) *ssa.Function {
+	if f == nil || f.Synthetic == "" || len(f.Blocks) != 1 {
+		return f
+	}
+	if !strings.HasSuffix(f.Name(), "$thunk") && !strings.HasSuffix(f.Name(), "$bound") {
+		return f
+	}
+	var callee *ssa.Function
+	n := 0
+	for _, in := range f.Blocks[0].Instrs {
+		if ci, ok := in.(ssa.CallInstruction); ok {
+			n++
+			callee = ci.Common().StaticCallee()
+		}
+	}
+	if n == 1 && callee != nil {
+		return callee
+	}
+	return f
 }
 
 // discardsLookahead: in stores false into parser.peeked — the look-ahead token is dropped, so the next peek reads on.
